@@ -52,6 +52,9 @@ pub(crate) struct SyncTrackerRes {
     pub(crate) sync_audios: bool,
 
     pub(crate) host_promotion_in_progress: bool,
+    /// This host has handed the session over to a promoted client and closes its server as soon
+    /// as its last remaining client is gone.
+    pub(crate) closing_server_after_promotion: bool,
 }
 
 pub(crate) fn sync_material_enabled(tracker: Res<SyncTrackerRes>) -> bool {
